@@ -497,7 +497,7 @@ func genGarbage(r *hx.Rand, tier string) string {
 	finish(r, p, 0)
 	ss := p.Sets[r.Intn(len(p.Sets))]
 	kb := keypair.SerializePublicKey(ss.Keys[0].Pub)
-	kind := r.Intn(14)
+	kind := r.Intn(15)
 	switch kind {
 	case 0:
 		ss.Verify = r.Bytes(r.Intn(40))
@@ -567,8 +567,29 @@ func genGarbage(r *hx.Rand, tier string) string {
 		ss.BuildVerify()
 		p.Payer = AddrOfSet(ss)
 		ss.SigList = [][]byte{append([]byte{0x0b}, r.Bytes(1+r.Intn(62))...)}
+	case 14: // uncompressed NIST-curve key that is not on the curve + an SM2-scheme signature (the library call panics)
+		k := pickKey(r, []string{"p256", "p256", "p224", "p384", "p521"}[r.Intn(5)])
+		ss.Verify = append(EmitPush(offCurve(r, k), 0), opCHECKSIG)
+		ss.Keys, ss.M, ss.Signers = []KeyInfo{k}, 1, []int{0}
+		p.Payer = common.AddressFromVmCode(ss.Verify)
+		ss.SigList = [][]byte{append([]byte{0x09, 0x00}, r.Bytes(64)...)}
 	}
 	return Line(p.Assemble(), "", fmt.Sprintf("garbage:%d", kind))
+}
+
+// offCurve returns the uncompressed encoding of k's public key with one bit of Y flipped: still parsed by
+// ec.DecodePublicKey (which does not check the curve equation), but not a point of the curve.
+func offCurve(r *hx.Rand, k KeyInfo) []byte {
+	encs := KeyEncodings(k.Pub)
+	var unc []byte
+	for _, e := range encs[1:] {
+		if len(e) > len(unc) && e[len(e)-1] != 0xEE {
+			unc = e
+		}
+	}
+	out := append([]byte{}, unc...)
+	out[len(out)-1-r.Intn(8)] ^= byte(1 << uint(r.Intn(8)))
+	return out
 }
 
 // Corpus: hand-made boundary cases, always run first.
@@ -626,10 +647,20 @@ func Corpus() []string {
 		out = append(out, Line(p.Assemble(), "", "corpus:eth-short-sig"))
 		p = one("eth")
 		finish(r, p, 0)
-		sg := append([]byte{}, p.Sets[0].SigList[0]...)
-		sg[len(sg)-1] ^= 0x55
-		p.Sets[0].SigList[0] = sg
-		out = append(out, Line(p.Assemble(), "", "corpus:eth-recid"))
+		{
+			// recovery-id byte changed: a single-byte mutant (claim) of an accepted transaction
+			base := p.Assemble()
+			if reg, _, ok := Layout(base); ok {
+				for off := len(base) - 1; off >= 0; off-- {
+					if reg[off].Name == "sigdata" && reg[off].SigOff == reg[off].SigLen-1 {
+						mut := append([]byte{}, base...)
+						mut[off] ^= 0x55
+						out = append(out, Line(mut, fmt.Sprintf("b:%d:%02x", off, base[off]), "corpus:eth-recid"))
+						break
+					}
+				}
+			}
+		}
 		p = one("eth")
 		finish(r, p, 0)
 		p.Sets[0].SigList[0] = append(append([]byte{}, p.Sets[0].SigList[0]...), 1, 2, 3)
@@ -641,6 +672,15 @@ func Corpus() []string {
 		finish(r, p, 0)
 		p.Sets[0].SigList[0] = []byte{0x0b, 0x01, 0x02}
 		out = append(out, Line(p.Assemble(), "", "corpus:eth-short-sig-multi"))
+	}
+	// off-curve uncompressed P-256 key with an SM2-scheme signature: sm2.Verify panics inside crypto/elliptic
+	{
+		p := one("p256")
+		finish(r, p, 0)
+		p.Sets[0].Verify = append(EmitPush(offCurve(r, p.Sets[0].Keys[0]), 0), opCHECKSIG)
+		p.Payer = common.AddressFromVmCode(p.Sets[0].Verify)
+		p.Sets[0].SigList = [][]byte{append([]byte{0x09, 0x00}, r.Bytes(64)...)}
+		out = append(out, Line(p.Assemble(), "", "corpus:offcurve-sm2-sig"))
 	}
 	// 16 sets, a 16-of-16 and a 1-of-16
 	{
